@@ -247,6 +247,7 @@ def apply(c):
             r is Ok ==> dec_labels(io_buf(final(out)), io_buf(old(out)).len() as int, 0) == Some(self.lv()), // @C03:compressed-name-decodes,C07:pointers-expand-to-the-name
             r is Ok ==> io_buf(final(out)).len() == io_buf(old(out)).len() + inplace_len(io_buf(final(out)), io_buf(old(out)).len() as int), // @C03:compressed-name-decodes
             r is Ok ==> io_buf(final(out)).len() - io_buf(old(out)).len() <= wl(self.lv()) + 1, // @C03:never-longer
+            r is Ok ==> io_buf(final(out)).len() > io_buf(old(out)).len(),
             r is Ok ==> ((exists|k: &'a [Label<'a>]| old(name_refs)@.contains_key(k) && k@ == self.lseq()) && self.lseq().len() > 0
                 ==> io_buf(final(out)).len() == io_buf(old(out)).len() + 2), // @C07:repeated-name-is-a-pointer
 """, pre_body="""
